@@ -8,12 +8,16 @@ CONSTANTS
   Orders <- OrdOne
   FullOrder = TRUE
   Points <- Pts1
-  Feeds <- Fd1
+  Feeds <- FdMaps
+  PhaseMaps <- Ph1
+  ReKVals <- NoReK
+  MaxHist = 0
 INVARIANT PolyAgreesWithFold
 INVARIANT PermutationInvariant
 INVARIANT InactiveNotInExponent
 INVARIANT UntouchedGetNothing
 INVARIANT FeedExact
+INVARIANT CurrentConstantRules
 INVARIANT NetCountsInactive
 INVARIANT PointSeparates
 INVARIANT PolysNormal
